@@ -32,6 +32,19 @@ type VOther struct {
 func (v *VOther) Label() string { return v.Q }
 
 // three levels of anonymous embedding, the innermost with several fields of one kind
+// boxes that hold the same leaf type in a pointer slot and in a value slot (both can sit in an interface slice)
+type VPBox struct {
+	P *VInner `json:"p"`
+}
+
+func (b *VPBox) Label() string { return "pbox" }
+
+type VVBox struct {
+	V VInner `json:"v"`
+}
+
+func (b *VVBox) Label() string { return "vbox" }
+
 // VTwo is registered under two names; VHolder holds it by value
 type VTwo struct {
 	Q string `json:"q"`
@@ -106,6 +119,8 @@ func c10register() {
 		r.RegisterUserdef(&zygo.RegisteredType{GenDefMap: true, Factory: func(env *zygo.Zlisp, h *zygo.SexpHash) (interface{}, error) { return &VInner{}, nil }}, true, "vinner")
 		r.RegisterUserdef(&zygo.RegisteredType{GenDefMap: true, Factory: func(env *zygo.Zlisp, h *zygo.SexpHash) (interface{}, error) { return &VHolder{}, nil }}, true, "vholder")
 		r.RegisterUserdef(&zygo.RegisteredType{GenDefMap: true, Factory: func(env *zygo.Zlisp, h *zygo.SexpHash) (interface{}, error) { return &VOther{}, nil }}, true, "vother")
+		r.RegisterUserdef(&zygo.RegisteredType{GenDefMap: true, Factory: func(env *zygo.Zlisp, h *zygo.SexpHash) (interface{}, error) { return &VPBox{}, nil }}, true, "vpbox")
+		r.RegisterUserdef(&zygo.RegisteredType{GenDefMap: true, Factory: func(env *zygo.Zlisp, h *zygo.SexpHash) (interface{}, error) { return &VVBox{}, nil }}, true, "vvbox")
 		// a type registered under two names (like the demo's nestouter/NestOuter): used by C20 only, where registry
 		// walks must pick the same name on every run
 		r.RegisterUserdef(&zygo.RegisteredType{GenDefMap: true, Factory: func(env *zygo.Zlisp, h *zygo.SexpHash) (interface{}, error) { return &VTwo{}, nil }}, true, "vtwo", "VTwoAlias")
@@ -260,6 +275,65 @@ func c10cases(thorough bool) []c10case {
 		cs = append(cs, c10case{class: "shared-three-refs/" + strings.Join(ord, "-"), setup: `(def in (vinner s:"sh" n:5))`,
 			rec: "(vall " + ord[0] + ":in " + ord[1] + ":in " + ord[2] + ":in)", sameP: true,
 			want: func() *VAll { in := &VInner{S: "sh", N: 5}; return &VAll{P: in, P2: in, V: *in} }})
+	}
+	// the same in the order the converter walks the Go struct: pointer field, value field, interface field / pointer slice
+	cs = append(cs, c10case{class: "shared-three-refs/pointer-value-interface", setup: `(def in (vinner s:"sh" n:5))`, rec: `(vall p:in v:in if:in)`,
+		want: func() *VAll { in := &VInner{S: "sh", N: 5}; return &VAll{P: in, V: *in, If: in} },
+		same: func(v *VAll) string {
+			if l, ok := v.If.(*VInner); !ok || l != v.P {
+				return "the record referenced from a pointer field, a value field and an interface field: the interface field does not hold the pointer field's object"
+			}
+			return ""
+		}})
+	cs = append(cs, c10case{class: "shared-three-refs/pointer-values-pointers", setup: `(def in (vinner s:"sh" n:5))`, rec: `(vall p:in vs:[in in] ps:[in in] ifs:[in])`,
+		want: func() *VAll {
+			in := &VInner{S: "sh", N: 5}
+			return &VAll{P: in, Vs: []VInner{*in, *in}, Ps: []*VInner{in, in}, Ifs: []VIface{in}}
+		},
+		same: func(v *VAll) string {
+			if len(v.Ps) != 2 || v.Ps[0] != v.P || v.Ps[1] != v.P || len(v.Ifs) != 1 || v.Ifs[0] != VIface(v.P) {
+				return "after value slots in between, the later pointer slots do not hold the first pointer slot's object"
+			}
+			return ""
+		}})
+	// one leaf record inside three different parent records: pointer box, value box, pointer box (all 6 orders of the
+	// three boxes, and with a second value box in between)
+	for _, order := range [][]string{{"p", "v", "p"}, {"v", "p", "p"}, {"p", "p", "v"}, {"p", "v", "v", "p"}, {"v", "p", "v", "p"}} {
+		order := order
+		var elems []string
+		for _, o := range order {
+			if o == "p" {
+				elems = append(elems, "(vpbox p:in)")
+			} else {
+				elems = append(elems, "(vvbox v:in)")
+			}
+		}
+		cs = append(cs, c10case{class: "shared-across-parents/" + strings.Join(order, ""), setup: `(def in (vinner s:"sh" n:5))`, rec: "(vall ifs:[" + strings.Join(elems, " ") + "])",
+			want: func() *VAll {
+				in := &VInner{S: "sh", N: 5}
+				v := &VAll{}
+				for _, o := range order {
+					if o == "p" {
+						v.Ifs = append(v.Ifs, &VPBox{P: in})
+					} else {
+						v.Ifs = append(v.Ifs, &VVBox{V: *in})
+					}
+				}
+				return v
+			},
+			same: func(v *VAll) string {
+				var first *VInner
+				for _, e := range v.Ifs {
+					if b, ok := e.(*VPBox); ok {
+						if first == nil {
+							first = b.P
+						} else if b.P != first {
+							return "the leaf record referenced from several pointer boxes (with value boxes in between) became several Go objects"
+						}
+					}
+				}
+				return ""
+			}})
 	}
 	cs = append(cs, c10case{class: "shared-three-refs/slice-value-slice", setup: `(def in (vinner s:"sh" n:5))`, rec: `(vall ps:[in] v:in ifs:[in] p:in)`,
 		want: func() *VAll {
